@@ -117,24 +117,6 @@ impl TypeRef {
             TypeRef::List(_) => true,
         }
     }
-
-    pub(crate) fn is_subtype(&self, sub: &TypeRef) -> bool {
-        fn is_subtype(cur: &TypeRef, sub: &TypeRef) -> bool {
-            match (cur, sub) {
-                (TypeRef::NonNull(super_type), TypeRef::NonNull(sub_type)) => {
-                    is_subtype(&super_type, &sub_type)
-                }
-                (_, TypeRef::NonNull(sub_type)) => is_subtype(cur, &sub_type),
-                (TypeRef::Named(super_type), TypeRef::Named(sub_type)) => super_type == sub_type,
-                (TypeRef::List(super_type), TypeRef::List(sub_type)) => {
-                    is_subtype(super_type, sub_type)
-                }
-                _ => false,
-            }
-        }
-
-        is_subtype(self, sub)
-    }
 }
 
 #[cfg(test)]
